@@ -865,10 +865,41 @@ func main() {
 	script := flag.String("script", "", "run this scripted history instead of generated ones (ops separated by ';')")
 	flag.Parse()
 	if !*worker && *script == "" {
-		err := hist.ParallelSelf(*count, *first, *workers, *outPath, os.Args[1:])
-		if err != nil {
-			fmt.Fprintln(os.Stderr, err)
-			os.Exit(2)
+		// every history opens several wallet instances whose memory the process keeps: bound the
+		// number of histories per worker process by running the workers in rounds
+		const perProc = 8
+		var out *os.File
+		if *outPath != "" {
+			f, err := os.Create(*outPath)
+			if err != nil {
+				fmt.Fprintln(os.Stderr, err)
+				os.Exit(2)
+			}
+			defer f.Close()
+			out = f
+		}
+		for off := 0; off < *count; off += perProc * *workers {
+			n := perProc * *workers
+			if off+n > *count {
+				n = *count - off
+			}
+			tmp := ""
+			if out != nil {
+				tmp = fmt.Sprintf("%s.part", *outPath)
+			}
+			if err := hist.ParallelSelf(n, *first+off, *workers, tmp, os.Args[1:]); err != nil {
+				fmt.Fprintln(os.Stderr, err)
+				os.Exit(2)
+			}
+			if out != nil {
+				b, err := os.ReadFile(tmp)
+				if err != nil {
+					fmt.Fprintln(os.Stderr, err)
+					os.Exit(2)
+				}
+				out.Write(b)
+				os.Remove(tmp)
+			}
 		}
 		return
 	}
